@@ -92,6 +92,9 @@ def emit_family(n, m):
         L.append("    match (req, op) {")
         for r in range(1, 1 << n):
             names = " + ".join(req_names(r))
+            # the same request with every other trait spelled as a path (`self::Name`): only the
+            # answer is looked at (the result type is whatever the macro makes of it)
+            names_path = " + ".join((("self::" + x) if j % 2 == 1 else x) for j, x in enumerate(req_names(r)))
             calls = []
             for (t, meth, tid) in MAND[:m]:
                 calls.append((f"x.{meth}()", tid, 0, t))
@@ -104,7 +107,7 @@ def emit_family(n, m):
 
             # check
             chk = "check_impl_" + "_".join(x.lower() for x in sorted(req_names(r)))
-            L.append(f"        ({r}, 0) => {{ let ok = g.{chk}(); if ok != expect {{ return Err(mismatch(\"check\", ok, enabled, req)); }} }}")
+            L.append(f"        ({r}, 0) => {{ let ok = g.{chk}(); if ok != expect {{ return Err(mismatch(\"check\", ok, enabled, req)); }} let ok = as_ref!(g impl {names_path}).is_some(); if ok != expect {{ return Err(mismatch(\"as_ref (path-spelled request)\", ok, enabled, req)); }} let ok = as_mut!(g impl {names_path}).is_some(); if ok != expect {{ return Err(mismatch(\"as_mut (path-spelled request)\", ok, enabled, req)); }} }}")
             # as_ref
             L.append(f"        ({r}, 1) => {{ match as_ref!(g impl {names}) {{ Some(x) => {{ if !expect {{ return Err(mismatch(\"as_ref\", true, enabled, req)); }}\n{call_block('            ')} }} None => {{ if expect {{ return Err(mismatch(\"as_ref\", false, enabled, req)); }} }} }} }}")
             # as_mut
